@@ -205,6 +205,13 @@ class Sched:
             if self.killed:
                 raise Deadlock()
 
+    def demote_current(self) -> None:
+        """The running thread gets the lowest priority (strategy 'pct'): everybody else runs until blocked or done."""
+        me = self._me()
+        if me is not None:
+            self.low -= 1.0
+            me.prio = self.low
+
     def yield_point(self, kind: str = "") -> None:
         me = self._me()
         if me is None or self.killed:
@@ -401,6 +408,10 @@ class LineMonitor:
         self.lines = 0
         self.ops = 0
         self.active = False
+        self.collect = None   # dict (file, line) -> times executed, when asked for
+        self.target = None    # (file, line, occurrence): the thread that executes it loses the CPU there, once
+        self.hits = 0
+        self.fired = False
 
     def _cb_op(self, code, offset):
         if not code.co_filename.startswith(self.opcode_prefixes):
@@ -414,6 +425,18 @@ class LineMonitor:
             return sys.monitoring.DISABLE
         if self.active and not self.sched.no_preempt:
             self.lines += 1
+            if self.collect is not None:
+                key = (code.co_filename, line)
+                self.collect[key] = self.collect.get(key, 0) + 1
+            tg = self.target
+            if tg is not None and line == tg[1] and code.co_filename == tg[0]:
+                self.hits += 1
+                if self.hits == tg[2]:
+                    self.fired = True
+                    self.sched.demote_current()
+                    if len(tg) > 3 and tg[3]:
+                        # ... and stays off the CPU for a while of virtual time (the others' I/O completes meanwhile)
+                        self.sched.block_until(lambda: False, timeout=tg[3], where="pre-empted")
             self.sched.yield_point("line")
 
     def __enter__(self):
